@@ -118,7 +118,7 @@ PROPS = {
         "assumptions": [],
     },
     "C05": {
-        "modules": ["Cose.Props.C05"], "families": ["msg:C05", "msg:C04", "map"], "spec_ops": [],
+        "modules": ["Cose.Props.C05", "Cose.Props.C05Sign"], "families": ["msg:C05", "msg:C04", "map"], "spec_ops": [],
         "n_quick": 300, "n_thorough": 40000,
         "rule": "per case: a produce with the protected alg given as int / int64 / key.Alg / other width / another registered alg / text / nil / out-of-range; a produce with nil headers (defaults recorded) and its consume; "
                 "a consume with a key of another algorithm sharing the key bytes where the family allows (HMAC 256/64 vs 256/256, AES-MAC, CCM, GCM); a message without protected alg; foreign messages with alg in both buckets and later signatures naming another algorithm",
@@ -134,7 +134,7 @@ PROPS = {
         "assumptions": ["non-repetition of crypto/rand output is not a theorem: proved instead that each encryption consumes its own block of the stream"],
     },
     "C09": {
-        "modules": ["Cose.Props.C09", "Cose.Props.C09Sign", "Cose.Props.C09All", "Cose.Props.KdfRoundtrip"], "families": ["msg:C09", "kdf", "claims", "dec", "map"], "spec_ops": ["kdf.enc", "claims.enc", "dec.bytestr", "dec.keyjson"],
+        "modules": ["Cose.Props.C09", "Cose.Props.C09Sign", "Cose.Props.C09All", "Cose.Props.KdfRoundtrip", "Cose.Props.KeySetRoundtrip"], "families": ["msg:C09", "kdf", "claims", "dec", "map"], "spec_ops": ["kdf.enc", "claims.enc", "dec.bytestr", "dec.keyjson"],
         "n_quick": 400, "n_thorough": 40000,
         "rule": "library-produced messages of the 6 kinds re-encoded (tagged and untagged input), RemoveCBORTag on tagged and CWT-tagged input; foreign non-canonical messages re-encoded then consumed again "
                 "(decode -> encode -> decode -> verify on the library, predicted by the model); the decoded object is independent of its input buffer and of other objects decoded from the same octets (buffer overwritten, header maps edited), and a Verify / Decrypt leaves its re-encoding unchanged (every kind x every algorithm at fixed slots)",
@@ -151,7 +151,7 @@ PROPS = {
         "assumptions": ["known finding D9 (uninterpretable key_ops lift the restriction) is listed in known_findings.txt and proved as malformed_ops_unusable_cex"],
     },
     "C17": {
-        "modules": ["Cose.Props.C17", "Cose.Go.ByteStr"], "families": ["key", "impl", "sig", "ecdh", "dec", "map", "conv"], "spec_ops": ["dec.keyjson", "conv.ed25519", "conv.ecdsa", "conv.ecdh", "conv.gen", "conv.keyset"],
+        "modules": ["Cose.Props.C17", "Cose.Go.ByteStr", "Cose.Props.KeySetRoundtrip"], "families": ["key", "impl", "sig", "ecdh", "dec", "map", "conv"], "spec_ops": ["dec.keyjson", "conv.ed25519", "conv.ecdsa", "conv.ecdh", "conv.gen", "conv.keyset"],
         "extras": [{"name": "nolink", "pkg": "./nolink", "args": [], "n_quick": 1, "n_thorough": 1}],
         "n_quick": 1000, "n_thorough": 100000,
         "rule": "symmetric / Ed25519 / ECDSA keys with optional and broken members (kty, alg in every Go kind or absent or foreign, kid, key_ops, Base IV, extra labels, wrong sizes), nil key; "
